@@ -95,7 +95,7 @@ Definition local_ok (s : fstate) (nown : nid -> tid) (t : tid) (th : thread) : P
   | PQ1 | PQ7 => acked a <> 0 /\ deferred a = false
   | PQ2 c | PQ3 c | PQ4 c | PQ5 c | PQ6 c => acked a <> 0 /\ deferred a = false /\ c = ctr d /\ acked a + 1 = c
   | PAb1 n => nown n = t
-  | PAb2 n tg | PAb3 n tg _ => nown n = t /\ tg = fwtg s n
+  | PAb2 n tg | PAb3 n tg _ => nown n = t /\ tg = fwtg s n /\ tg <> 0
   | PRun1 => True
   | PRun2 c => c <= ctr d
   | PQb1 | PQb2 _ | PQb3 _ _ | PQb4 _ => True
@@ -125,6 +125,7 @@ Record FCore (s : fstate) : Prop := mkFCore {
   f_loc : forall x, local_ok s nown x (fth s x);
   (* J1, J2, J3 *)
   f_j1 : forall x, memb (fth s x) = true -> eack (fth s x) = vctr s \/ eack (fth s x) + 1 = vctr s;
+  f_le : forall x, memb (fth s x) = true -> eack (fth s x) <= ctr (fd s);
   f_j2 : toack (fd s) = cnt (fun x => needs (vctr s) (fth s x)) U;
   f_j3 : nagents (fd s) = cnt (fun x => memb (fth s x)) U;
   (* J4 and the uniqueness of the thread that restarts the period *)
@@ -190,6 +191,7 @@ Lemma fcore_upd s s' t th' :
   fth s' = upd (fth s) t th' ->
   vctr s' = vctr s -> ctr (fd s) <= ctr (fd s') ->
   (memb th' = true -> eack th' = vctr s \/ eack th' + 1 = vctr s) ->
+  (memb th' = true -> eack th' <= ctr (fd s')) ->
   toack (fd s') + b2n (needs (vctr s) (fth s t)) = toack (fd s) + b2n (needs (vctr s) th') ->
   nagents (fd s') + b2n (memb (fth s t)) = nagents (fd s) + b2n (memb th') ->
   (forall x, holds (fth s' x) = true <-> fmx s' = Some x) ->
@@ -199,7 +201,7 @@ Lemma fcore_upd s s' t th' :
   (forall x, restarter (fth s' x) = true -> special (fth s' x) = false -> toack (fd s') = 0) ->
   FCore U nown s'.
 Proof.
-  intros HC ND Ht Hth Hv Hc H1 H2 H3 Hh Hl H4 Hr1 Hr2.
+  intros HC ND Ht Hth Hv Hc H1 Hle H2 H3 Hh Hl H4 Hr1 Hr2.
   assert (Hoth : forall x, x <> t -> fth s' x = fth s x) by (intros x Hx; rewrite Hth; now apply upd_other).
   assert (Hme : fth s' t = th') by (rewrite Hth; apply upd_same).
   constructor; try assumption.
@@ -208,6 +210,9 @@ Proof.
   - intros x. rewrite Hv. destruct (Nat.eq_dec x t) as [->|Hx].
     + rewrite Hme. exact H1.
     + rewrite (Hoth x Hx). apply (f_j1 _ _ _ HC x).
+  - intros x. destruct (Nat.eq_dec x t) as [->|Hx].
+    + rewrite Hme. exact Hle.
+    + rewrite (Hoth x Hx). intros M. pose proof (f_le _ _ _ HC x M) as L. clear - L Hc. lia.
   - rewrite Hv.
     pose proof (cnt_change (fun x => needs (vctr s) (fth s x)) (fun x => needs (vctr s) (fth s' x)) U t ND Ht) as C.
     cbv beta in C. rewrite Hme in C. rewrite <- (f_j2 _ _ _ HC) in C.
@@ -234,8 +239,8 @@ Lemma local_ok_frame s s' x th :
   local_ok s nown x th -> local_ok s' nown x th.
 Proof.
   intros Hc Hn Hw [H0 H]. split; [assumption|]. destruct (tpc th); rewrite ?Hc, ?Hn; try assumption.
-  - destruct H as [H1 H2]. split; [assumption|]. rewrite (Hw _ H1). assumption.
-  - destruct H as [H1 H2]. split; [assumption|]. rewrite (Hw _ H1). assumption.
+  - destruct H as (H1 & H2 & H3). split; [assumption|]. rewrite (Hw _ H1). split; assumption.
+  - destruct H as (H1 & H2 & H3). split; [assumption|]. rewrite (Hw _ H1). split; assumption.
 Qed.
 
 (* the counting attributes of t do not change; the mutex and t's agent object may *)
@@ -262,6 +267,7 @@ Proof.
   apply (fcore_upd U nown s s' t th' HC ND Ht Hth Hv).
   - rewrite Hc. apply N.le_refl.
   - intros M. rewrite (A2 M). apply (f_j1 _ _ _ HC t). now rewrite <- A1.
+  - intros M. rewrite (A2 M), Hc. apply (f_le _ _ _ HC t). now rewrite <- A1.
   - rewrite Hneeds, Hta. reflexivity.
   - rewrite A1, Hn. reflexivity.
   - exact Hh.
@@ -458,6 +464,7 @@ Proof.
   apply (fcore_upd U nown s s' t th' HC ND Ht Hth Hv').
   - rewrite Hc. apply N.le_refl.
   - now rewrite Hv.
+  - intros M. rewrite Hc. destruct (H1 M) as [E|E]; clear - E; lia.
   - now rewrite Hv.
   - exact H3.
   - apply (hold_same s s' t th' HC Hth Hm Hh).
@@ -512,6 +519,7 @@ Proof.
   - intros x. destruct (Nat.eq_dec x t) as [->|Hx]; [now rewrite Hme|]. rewrite (Hoth x Hx).
     apply (local_ok_frame s s' x (fth s x) Hc Hn); [|apply (f_loc _ _ _ HC x)]. intros; now rewrite Hw.
   - intros x Hx. destruct (Hat x) as [E1 E2]. rewrite E1 in Hx. rewrite E2, Hv', (Hall x Hx). now right.
+  - intros x Hx. destruct (Hat x) as [E1 E2]. rewrite E1 in Hx. rewrite E2, Hc. apply (f_le _ _ _ HC x Hx).
   - rewrite Hta, Hv', (f_j3 _ _ _ HC). apply cnt_ext. intros x Hx. destruct (Hat x) as [E1 E2].
     rewrite needs_eq, E1, E2.
     assert (I2 : isoff2 (fth s' x) = false).
@@ -554,6 +562,7 @@ Proof.
   apply (fcore_upd U nown s s' t th' HC ND Ht Hth Hv').
   - rewrite Hc. clear. lia.
   - rewrite A1, A2. apply (f_j1 _ _ _ HC t).
+  - rewrite A1, A2, Hc. intros M. pose proof (f_le _ _ _ HC t M) as L. clear - L. lia.
   - rewrite !needs_eq, A1, A2, A6, A6', Hta. reflexivity.
   - rewrite A1, Hn. reflexivity.
   - apply (hold_same s s' t th' HC Hth); [congruence|]. rewrite Hh'. symmetry. apply (f_hold _ _ _ HC t). exact Hm.
@@ -575,6 +584,18 @@ Proof.
     rewrite (Hoth x Hn') in Hx. rewrite (Honly x Hn') in Hx. discriminate.
 Qed.
 
+(* an agent that is online and outside quiescent_state()/offline() has acked at most the current period *)
+Lemma active_acked_le s x : FCore U nown s -> f_active s x = true ->
+  acked (tag (fth s x)) <> 0 /\ in_quiescent (tpc (fth s x)) = false /\ acked (tag (fth s x)) <= ctr (fd s).
+Proof.
+  intros HC A. unfold f_active, online_b in A. apply andb_true_iff in A. destruct A as [A1 A2].
+  apply negb_true_iff in A1, A2. apply N.eqb_neq in A1. split; [assumption|]. split; [assumption|].
+  pose proof (f_loc _ _ _ HC x) as [_ L]. pose proof (f_le _ _ _ HC x) as Le.
+  unfold memb, eack in Le. destruct (tpc (fth s x)); try discriminate;
+    try (destruct L as (La & _); contradiction);
+    (destruct (acked (tag (fth s x)) =? 0) eqn:Z; [apply N.eqb_eq in Z; contradiction|]; now apply Le).
+Qed.
+
 End Moves.
 
 Section GhostMoves.
@@ -587,32 +608,31 @@ Lemma fghost_frame s s' t th' :
   ftarget s' = ftarget s -> fowner s' = fowner s -> fwtg s' = fwtg s ->
   (forall n x, fwait s' n x = true -> fwait s n x = true) ->
   (forall b x, fqbw s' b x = true -> fqbw s b x = true) ->
-  acked (tag th') = acked (tag (fth s t)) -> pending (tag th') = pending (tag (fth s t)) ->
-  (forall n, fwait s' n t = true -> in_quiescent (tpc th') = false) ->
-  (forall b, fqbw s' b t = true -> in_quiescent (tpc th') = false) ->
+  pending (tag th') = pending (tag (fth s t)) ->
+  (forall n, fwait s' n t = true -> acked (tag th') = acked (tag (fth s t)) /\ in_quiescent (tpc th') = false) ->
+  (forall b tg, fqbw s' b t = true -> qb_target (fth s b) = Some tg ->
+     acked (tag th') = acked (tag (fth s t)) /\ in_quiescent (tpc th') = false) ->
   (qb_target th' = None \/ qb_target th' = qb_target (fth s t)) ->
   (forall n, in_await (fth s t) n = true -> in_await th' n = true) ->
   (forall c, In c (tscript th') -> In c (tscript (fth s t))) ->
   FGhost nown s'.
 Proof.
-  intros HG Hth Htg Hown Hwtg Hw Hq Hack Hpend Hkt Hqt Hqb Haw Hscr.
+  intros HG Hth Htg Hown Hwtg Hw Hq Hpend Hkt Hqt Hqb Haw Hscr.
   assert (Hoth : forall x, x <> t -> fth s' x = fth s x) by (intros x Hx; rewrite Hth; now apply upd_other).
   assert (Hme : fth s' t = th') by (rewrite Hth; apply upd_same).
-  assert (Hacked : forall x, acked (tag (fth s' x)) = acked (tag (fth s x))).
-  { intros x. destruct (Nat.eq_dec x t) as [->|Hx]; [now rewrite Hme|now rewrite Hoth]. }
   assert (Hpending : forall x, pending (tag (fth s' x)) = pending (tag (fth s x))).
   { intros x. destruct (Nat.eq_dec x t) as [->|Hx]; [now rewrite Hme|now rewrite Hoth]. }
   constructor.
-  - intros n x Hx. rewrite Hacked, Hwtg. destruct (f_k _ _ HG n x (Hw n x Hx)) as (A & B & C).
-    split; [assumption|]. split; [|assumption].
-    destruct (Nat.eq_dec x t) as [->|Hn]; [rewrite Hme; apply (Hkt n Hx)|now rewrite Hoth].
-  - intros b x tg Hx Hb. rewrite Hacked.
+  - intros n x Hx. rewrite Hwtg. destruct (f_k _ _ HG n x (Hw n x Hx)) as (A & B & C).
+    destruct (Nat.eq_dec x t) as [->|Hn]; [|now rewrite Hoth].
+    rewrite Hme. destruct (Hkt n Hx) as [E1 E2]. rewrite E1. auto.
+  - intros b x tg Hx Hb.
     assert (Hb' : qb_target (fth s b) = Some tg).
     { destruct (Nat.eq_dec b t) as [->|Hn]; [|now rewrite Hoth in Hb].
       rewrite Hme in Hb. destruct Hqb as [E|E]; [congruence|now rewrite <- E]. }
     destruct (f_kq _ _ HG b x tg (Hq b x Hx) Hb') as (A & B & C).
-    split; [assumption|]. split; [|assumption].
-    destruct (Nat.eq_dec x t) as [->|Hn]; [rewrite Hme; apply (Hqt b Hx)|now rewrite Hoth].
+    destruct (Nat.eq_dec x t) as [->|Hn]; [|now rewrite Hoth].
+    rewrite Hme. destruct (Hqt b tg Hx Hb') as [E1 E2]. rewrite E1. auto.
   - intros n. rewrite Htg, Hown, Hwtg. intros Hn. destruct (f_m _ _ HG n Hn) as (o & Ho & Hin & Hor).
     exists o. split; [assumption|]. split; [now rewrite Hpending|].
     destruct Hor as [E|E]; [now left|right].
@@ -659,3 +679,659 @@ Ltac move_tac U nown HC ND Ht t Epc :=
   eapply (fcore_move U nown _ _ t _ HC ND Ht);
     [ cbn; reflexivity | cbn; reflexivity | cbn; reflexivity | cbn; reflexivity | cbn; reflexivity
     | intros; left; reflexivity | attrs_tac Epc | local_tac U nown HC t Epc ].
+
+Ltac attr1 Epc := intros; unfold memb, eack, special, holds, restarter, isoff2; split_ret; cbn; rewrite ?Epc; cbn; reflexivity.
+
+Ltac j4_same U nown HC t Epc :=
+  let D := fresh "D" in let M := fresh "M" in let A := fresh "A" in
+  intros D; cbn in D; destruct (f_j4 U nown _ HC t D) as [M A]; split;
+  [ unfold memb in *; cbn; rewrite ?Epc in *; cbn in *; assumption | exact A ].
+
+Ltac lock_tac U nown HC ND Ht t Epc :=
+  match goal with Hmx : fmx ?s = None |- _ =>
+  eapply (fcore_move2 U nown _ _ t _ HC ND Ht);
+  [ cbn; reflexivity | cbn; reflexivity | cbn; reflexivity | cbn; reflexivity
+  | unfold vctr; cbn; rewrite Hmx, upd_same; cbn; reflexivity
+  | intros; left; reflexivity
+  | attr1 Epc | attr1 Epc | attr1 Epc | attr1 Epc | attr1 Epc
+  | eapply (hold_lock U nown _ _ t _ HC); [cbn; reflexivity | exact Hmx | cbn; reflexivity | cbn; reflexivity]
+  | local_tac U nown HC t Epc
+  | j4_same U nown HC t Epc ] end.
+
+Ltac get_local U nown HC t Epc :=
+  let L := fresh "L" in pose proof (f_loc U nown _ HC t) as L; unfold local_ok in L; rewrite Epc in L; cbn in L.
+
+Ltac holder_is_t :=
+  match goal with Hmx : fmx ?s = Some ?h, E : (?h =? ?t)%nat = true |- _ => apply Nat.eqb_eq in E; subst h end.
+
+Ltac unlock_tac U nown HC ND Ht t Epc :=
+  holder_is_t;
+  match goal with Hmx : fmx ?s = Some t |- _ =>
+  eapply (fcore_move2 U nown _ _ t _ HC ND Ht);
+  [ cbn; reflexivity | cbn; reflexivity | cbn; reflexivity | cbn; reflexivity
+  | unfold vctr; cbn; rewrite Hmx; unfold special; rewrite Epc; reflexivity
+  | intros; left; reflexivity
+  | attr1 Epc | attr1 Epc | attr1 Epc | attr1 Epc | attr1 Epc
+  | eapply (hold_unlock U nown _ _ t _ HC); [cbn; reflexivity | exact Hmx | cbn; reflexivity | attr1 Epc]
+  | local_tac U nown HC t Epc
+  | let D := fresh "D" in intros D; exfalso; get_local U nown HC t Epc; revert D; split_ret; cbn; intuition congruence ] end.
+
+(* prelude for a step by the mutex holder t (not special) *)
+Ltac holder_prelude U nown HC t Epc :=
+  let Hh := fresh "Hh" in
+  assert (Hh : holds (fth _ t) = true) by (unfold holds; now rewrite Epc);
+  assert (Hmx : fmx _ = Some t) by (apply (f_hold U nown _ HC t); exact Hh);
+  assert (Hsp : special (fth _ t) = false) by (unfold special; now rewrite Epc);
+  assert (Hv : vctr _ = ctr (fd _)) by (unfold vctr; rewrite Hmx, Hsp; reflexivity).
+
+Ltac others_holder U nown HC t Hmx :=
+  let x := fresh "x" in let Hx := fresh "Hx" in
+  intros x Hx; apply (loc_others_holder U nown _ _ t x HC Hmx Hx); reflexivity.
+
+Ltac attrv Epc := unfold memb, eack, special, holds, restarter, isoff2; cbn; rewrite ?Epc; cbn;
+  try reflexivity; try (apply orb_true_r).
+
+Ltac vbump_tac U nown HC ND Ht t Epc :=
+  let Hh := fresh "Hh" in
+  assert (Hh : holds (fth _ t) = true) by (unfold holds; now rewrite Epc);
+  assert (Hmx : fmx _ = Some t) by (apply (f_hold U nown _ HC t); exact Hh);
+  eapply (fcore_vbump U nown _ _ t _ HC ND Ht);
+  [ cbn; reflexivity | exact Hmx | cbn; exact Hmx | attrv Epc | attrv Epc | attrv Epc | attrv Epc | attrv Epc
+  | attrv Epc | attrv Epc | attrv Epc | cbn; reflexivity | cbn; reflexivity | cbn; reflexivity | cbn
+  | cbn; reflexivity | local_tac U nown HC t Epc ].
+
+Ltac store_ctr_tac U nown HC ND Ht t Epc :=
+  let Hh := fresh "Hh" in
+  assert (Hh : holds (fth _ t) = true) by (unfold holds; now rewrite Epc);
+  assert (Hmx : fmx _ = Some t) by (apply (f_hold U nown _ HC t); exact Hh);
+  eapply (fcore_store_ctr U nown _ _ t _ HC ND Ht);
+  [ cbn; reflexivity | exact Hmx | cbn; exact Hmx | attrv Epc | attrv Epc | attrv Epc | attrv Epc | 
+  | attrv Epc | attrv Epc | attrv Epc | attrv Epc | | cbn | cbn; reflexivity | cbn; reflexivity
+  | cbn; reflexivity | ].
+
+Ltac others_frame U nown HC :=
+  let x := fresh "x" in let Hx := fresh "Hx" in
+  intros x Hx; eapply (local_ok_frame nown); [cbn; reflexivity|cbn; reflexivity|intros; reflexivity|apply (f_loc U nown _ HC x)].
+
+Section Step.
+Variable U : list tid.
+Variable nown : nid -> tid.
+Hypothesis ND : NoDup U.
+Hypothesis HB : few U.
+
+Lemma fstep_core t s s' evs op :
+  In t U -> FCore U nown s -> FGhost nown s -> fstop s = None ->
+  fstep t s = (s', evs, op) -> fstop s' = None -> FCore U nown s'.
+Proof.
+  intros Ht HC HG Hstop H Hns.
+  fstep_inv H Hstop.
+  all: try (cbn in Hns; discriminate).
+  all: try assumption.
+  all: try solve [move_tac U nown HC ND Ht t Epc].
+  all: try solve [lock_tac U nown HC ND Ht t Epc].
+  all: try solve [unlock_tac U nown HC ND Ht t Epc].
+  all: clear Hns.
+  1: { (* PIdle -> POn0 *)
+    assert (Dn : deferred (tag (fth s t)) = false).
+    { destruct (deferred (tag (fth s t))) eqn:D; [|reflexivity].
+      destruct (f_j4 _ _ _ HC t D) as [M _]. unfold memb in M. rewrite Epc in M. n2p. contradiction. }
+    eapply (fcore_move U nown _ _ t _ HC ND Ht);
+      [ cbn; reflexivity | cbn; reflexivity | cbn; reflexivity | cbn; reflexivity | cbn; reflexivity
+      | intros; left; reflexivity | attrs_tac Epc | ].
+    n2p. split; cbn; auto. }
+  1: { (* PIdle -> PAb1 n *)
+    eapply (fcore_move U nown _ _ t _ HC ND Ht);
+      [ cbn; reflexivity | cbn; reflexivity | cbn; reflexivity | cbn; reflexivity | cbn; reflexivity
+      | intros; left; reflexivity | attrs_tac Epc | ].
+    split; cbn; [auto|]. apply (f_scr _ _ HG t n). rewrite Heql. now left. }
+  1: { (* POn1 -> POn2: first agent *)
+    get_local U nown HC t Epc. destruct L as (L0 & La & Ld).
+    holder_prelude U nown HC t Epc.
+    assert (Hnm : memb (fth s t) = false) by (unfold memb; rewrite Epc, La; reflexivity).
+    pose proof (nagents_room U nown s t HC ND Ht Hnm) as Hroom.
+    assert (Hinc : inc32 (nagents (fd s)) = nagents (fd s) + 1).
+    { unfold inc32. destruct (nagents (fd s) =? 4294967295) eqn:E; [|reflexivity]. n2p. unfold few in HB. clear - HB Hroom E. lia. }
+    rewrite Hinc in *. n2p.
+    assert (Hn0 : nagents (fd s) = 0) by (clear - Heqb; lia).
+    assert (I2 : isoff2 (fth s t) = false) by (unfold isoff2; now rewrite Epc).
+    destruct (nobody_needs U nown s t HC Hn0 Hmx I2) as [T0 Hnor].
+    pose proof (f_ctr _ _ _ HC) as Hc1.
+    eapply (fcore_step_upd U nown s _ t _ HC ND Ht); try (cbn; reflexivity); try assumption.
+    - attr1 Epc.
+    - intros _. left. reflexivity.
+    - cbn. rewrite !needs_eq, Hnm, I2. unfold isoff2, memb, eack. cbn.
+      destruct (ctr (fd s) + 1 =? ctr (fd s)) eqn:E; [n2p; clear - E; lia|reflexivity].
+    - cbn. rewrite Hnm. unfold memb. cbn. clear. lia.
+    - split; cbn; [auto|]. repeat split; auto.
+    - others_holder U nown HC t Hmx.
+    - cbn. congruence.
+    - intros _. now right.
+    - intros _. exact T0.
+    - auto. }
+  1: { (* POn1 -> POn5: somebody is online already *)
+    get_local U nown HC t Epc. destruct L as (L0 & La & Ld).
+    holder_prelude U nown HC t Epc.
+    assert (Hnm : memb (fth s t) = false) by (unfold memb; rewrite Epc, La; reflexivity).
+    pose proof (nagents_room U nown s t HC ND Ht Hnm) as Hroom.
+    assert (Hinc : inc32 (nagents (fd s)) = nagents (fd s) + 1).
+    { unfold inc32. destruct (nagents (fd s) =? 4294967295) eqn:E; [|reflexivity]. n2p. unfold few in HB. clear - HB Hroom E. lia. }
+    rewrite Hinc in *. n2p.
+    assert (I2 : isoff2 (fth s t) = false) by (unfold isoff2; now rewrite Epc).
+    pose proof (f_ctr _ _ _ HC) as Hc1.
+    eapply (fcore_step_upd U nown s _ t _ HC ND Ht); try (cbn; reflexivity); try assumption.
+    - attr1 Epc.
+    - intros _. left. reflexivity.
+    - cbn. rewrite !needs_eq, Hnm, I2. unfold isoff2, memb, eack. cbn.
+      destruct (ctr (fd s) + 1 =? ctr (fd s)) eqn:E; [n2p; clear - E; lia|reflexivity].
+    - cbn. rewrite Hnm. unfold memb. cbn. clear. lia.
+    - split; cbn; [auto|]. repeat split; auto.
+    - others_holder U nown HC t Hmx.
+    - cbn. congruence.
+    - unfold restarter. cbn. rewrite Ld. discriminate.
+    - unfold restarter. cbn. rewrite Ld. discriminate.
+    - auto. }
+  1: { (* POn3 -> POn4 *)
+    vbump_tac U nown HC ND Ht t Epc. get_local U nown HC t Epc. symmetry. tauto. }
+  1: { (* POn4 -> POn5 *)
+    get_local U nown HC t Epc. destruct L as (L0 & La & Ld & Lc & Ln & L1).
+    store_ctr_tac U nown HC ND Ht t Epc.
+    - unfold restarter. cbn. now rewrite Ld.
+    - exact Ld.
+    - now rewrite Lc.
+    - split; cbn; auto. }
+  1: { (* POn5 -> idle: unlock, acked := c *)
+    holder_is_t. get_local U nown HC t Epc. destruct L as (L0 & La & Ld & L1).
+    assert (Hr : tret (fth s t) = None) by (apply L0; reflexivity).
+    assert (Hc0 : (c =? 0) = false) by (apply N.eqb_neq; clear - L1; lia).
+    eapply (fcore_move2 U nown s _ t _ HC ND Ht); try (cbn; reflexivity).
+    - unfold vctr. cbn. rewrite Heqo. unfold special. now rewrite Epc.
+    - intros; left; reflexivity.
+    - unfold ret_th, memb. cbn. rewrite Hr, Epc. cbn. now rewrite Hc0.
+    - intros _. unfold ret_th, eack. cbn. rewrite Hr, Epc. reflexivity.
+    - unfold ret_th, isoff2. cbn. rewrite Hr, Epc. reflexivity.
+    - unfold ret_th, special. cbn. rewrite Hr, Epc. reflexivity.
+    - unfold ret_th, restarter. cbn. rewrite Hr, Epc. reflexivity.
+    - eapply (hold_unlock U nown s _ t _ HC); [cbn; reflexivity|exact Heqo|cbn; reflexivity|].
+      unfold ret_th, holds. cbn. now rewrite Hr.
+    - unfold ret_th. cbn. rewrite Hr. split; cbn; auto.
+    - unfold ret_th. cbn. rewrite Hr. cbn. congruence. }
+  1: { (* POff1 -> POff2 *)
+    get_local U nown HC t Epc. destruct L as (L0 & La & Ld).
+    holder_prelude U nown HC t Epc. n2p.
+    assert (Hm1 : memb (fth s t) = true).
+    { unfold memb. rewrite Epc. destruct (acked (tag (fth s t)) =? 0) eqn:Z; [n2p; contradiction|reflexivity]. }
+    pose proof (nagents_pos U nown s t HC Hm1) as Hnp. rewrite (dec32_pos _ Hnp).
+    eapply (fcore_step_upd U nown s _ t _ HC ND Ht); try (cbn; reflexivity); try assumption.
+    - attr1 Epc.
+    - unfold memb. cbn. discriminate.
+    - cbn. rewrite !needs_eq, Hm1. unfold isoff2, memb, eack. cbn. rewrite Epc. cbn.
+      destruct (acked (tag (fth s t)) + 1 =? ctr (fd s)) eqn:E; [reflexivity|n2p; contradiction].
+    - cbn. rewrite Hm1. unfold memb. cbn. clear - Hnp. lia.
+    - split; cbn; auto.
+    - others_holder U nown HC t Hmx.
+    - cbn. congruence.
+    - unfold restarter. cbn. rewrite Ld. discriminate.
+    - unfold restarter. cbn. rewrite Ld. discriminate.
+    - auto. }
+  1: { (* POff1 -> POff5: already acked *)
+    get_local U nown HC t Epc. destruct L as (L0 & La & Ld).
+    holder_prelude U nown HC t Epc. n2p.
+    assert (Hm1 : memb (fth s t) = true).
+    { unfold memb. rewrite Epc. destruct (acked (tag (fth s t)) =? 0) eqn:Z; [n2p; contradiction|reflexivity]. }
+    pose proof (nagents_pos U nown s t HC Hm1) as Hnp. rewrite (dec32_pos _ Hnp).
+    eapply (fcore_step_upd U nown s _ t _ HC ND Ht); try (cbn; reflexivity); try assumption.
+    - attr1 Epc.
+    - unfold memb. cbn. discriminate.
+    - cbn. rewrite !needs_eq, Hm1. unfold isoff2, memb, eack. cbn. rewrite Epc. cbn.
+      destruct (acked (tag (fth s t)) + 1 =? ctr (fd s)) eqn:E; [n2p; clear - E Heqb; lia|reflexivity].
+    - cbn. rewrite Hm1. unfold memb. cbn. clear - Hnp. lia.
+    - split; cbn; auto.
+    - others_holder U nown HC t Hmx.
+    - cbn. congruence.
+    - unfold restarter. cbn. rewrite Ld. discriminate.
+    - unfold restarter. cbn. rewrite Ld. discriminate.
+    - auto. }
+  1: { (* POff2 -> POff3: last acker *)
+    get_local U nown HC t Epc. destruct L as (L0 & La & Ld & Lc & Le).
+    holder_prelude U nown HC t Epc. n2p. rewrite Heqb.
+    assert (Hnor : forall x, x <> t -> restarter (fth s x) = false).
+    { intros x Hx. destruct (restarter (fth s x)) eqn:R; [|reflexivity].
+      assert (Sx : special (fth s x) = false).
+      { destruct (special (fth s x)) eqn:Sx; [|reflexivity]. apply special_holds in Sx.
+        rewrite (other_not_holder U nown s t x HC Hmx Hx) in Sx. discriminate. }
+      pose proof (f_r2 _ _ _ HC x R Sx) as T0. clear - T0 Heqb. lia. }
+    eapply (fcore_step_upd U nown s _ t _ HC ND Ht); try (cbn; reflexivity); try assumption.
+    1: attr1 Epc.
+    1: (unfold memb; cbn; discriminate).
+    1: (cbn; rewrite !needs_eq; unfold isoff2, memb, eack; cbn; rewrite Epc; cbn; rewrite Heqb; reflexivity).
+    1: (cbn; unfold memb; cbn; rewrite Epc; reflexivity).
+    1: (split; cbn; auto).
+    1: others_holder U nown HC t Hmx.
+    1: (cbn; congruence).
+    1: (intros _; now right).
+    all: try (intros E; clear - E Heqb; lia). }
+  1: { (* POff2 -> POff5: not the last one *)
+    get_local U nown HC t Epc. destruct L as (L0 & La & Ld & Lc & Le).
+    holder_prelude U nown HC t Epc. n2p.
+    assert (Hnd : needs (vctr s) (fth s t) = true) by (unfold needs; now rewrite Epc).
+    pose proof (toack_pos U nown s t HC Hnd) as Htp. rewrite (dec32_pos _ Htp).
+    eapply (fcore_step_upd U nown s _ t _ HC ND Ht); try (cbn; reflexivity); try assumption.
+    - attr1 Epc.
+    - unfold memb. cbn. discriminate.
+    - cbn. rewrite !needs_eq. unfold isoff2, memb, eack. cbn. rewrite Epc. cbn. clear - Htp. lia.
+    - cbn. unfold memb. cbn. rewrite Epc. reflexivity.
+    - split; cbn; auto.
+    - others_holder U nown HC t Hmx.
+    - cbn. congruence.
+    - unfold restarter. cbn. rewrite Ld. discriminate.
+    - unfold restarter. cbn. rewrite Ld. discriminate.
+    - intros E. clear - E Htp. lia. }
+  1: { (* POff3 -> POff4 *)
+    vbump_tac U nown HC ND Ht t Epc. reflexivity. }
+  1: { (* POff4 -> POff5 *)
+    get_local U nown HC t Epc. destruct L as (L0 & La & Ld & Lc & Le).
+    store_ctr_tac U nown HC ND Ht t Epc.
+    - unfold restarter. cbn. now rewrite Ld.
+    - exact Ld.
+    - now rewrite Lc.
+    - split; cbn; auto. }
+  1: { (* POff5 -> idle: unlock, acked := 0 *)
+    holder_is_t. get_local U nown HC t Epc. destruct L as (L0 & Ld).
+    assert (Hr : tret (fth s t) = None) by (apply L0; reflexivity).
+    eapply (fcore_move2 U nown s _ t _ HC ND Ht); try (cbn; reflexivity).
+    - unfold vctr. cbn. rewrite Heqo. unfold special. now rewrite Epc.
+    - intros; left; reflexivity.
+    - unfold ret_th, memb. cbn. rewrite Hr, Epc. reflexivity.
+    - unfold ret_th, memb. cbn. rewrite Hr. cbn. discriminate.
+    - unfold ret_th, isoff2. cbn. rewrite Hr, Epc. reflexivity.
+    - unfold ret_th, special. cbn. rewrite Hr, Epc. reflexivity.
+    - unfold ret_th, restarter. cbn. rewrite Hr, Epc. reflexivity.
+    - eapply (hold_unlock U nown s _ t _ HC); [cbn; reflexivity|exact Heqo|cbn; reflexivity|].
+      unfold ret_th, holds. cbn. now rewrite Hr.
+    - unfold ret_th. cbn. rewrite Hr. split; cbn; auto.
+    - unfold ret_th. cbn. rewrite Hr. cbn. congruence. }
+  1: { (* PQd4 -> PQd5 *)
+    get_local U nown HC t Epc. destruct L as (L0 & La & Ld).
+    assert (Hh : holds (fth s t) = true) by (unfold holds; now rewrite Epc).
+    assert (Hmx : fmx s = Some t) by (apply (f_hold U nown _ HC t); exact Hh).
+    eapply (fcore_vbump U nown _ _ t _ HC ND Ht); try (cbn; reflexivity); try assumption.
+    all: try (unfold memb, eack, special, holds, restarter, isoff2; cbn; rewrite ?Epc, ?Ld; cbn; reflexivity).
+    split; cbn; auto. }
+  1: { (* PQd5 -> PQd6 *)
+    get_local U nown HC t Epc. destruct L as (L0 & La & Ld).
+    destruct (f_j4 _ _ _ HC t Ld) as [Hm1 Hac].
+    assert (Hh : holds (fth s t) = true) by (unfold holds; now rewrite Epc).
+    assert (Hmx : fmx s = Some t) by (apply (f_hold U nown _ HC t); exact Hh).
+    eapply (fcore_store_ctr U nown _ _ t _ HC ND Ht); try (cbn; reflexivity); try assumption.
+    all: try (unfold memb, eack, special, holds, restarter, isoff2; cbn; rewrite ?Epc, ?Ld; cbn; reflexivity).
+    - cbn. now rewrite Hac.
+    - split; cbn; auto. }
+  1: { (* PQ2 -> PQ3: last acker *)
+    get_local U nown HC t Epc. destruct L as (L0 & La & Ld & Lc & Le). n2p. rewrite Heqb.
+    assert (Hm1 : memb (fth s t) = true).
+    { unfold memb. rewrite Epc. destruct (acked (tag (fth s t)) =? 0) eqn:Z; [n2p; contradiction|reflexivity]. }
+    assert (Hv : vctr s = ctr (fd s)).
+    { destruct (vctr_cases U nown s HC) as [[E _]|[E _]]; [assumption|exfalso].
+      destruct (f_j1 _ _ _ HC t Hm1) as [F|F]; unfold eack in F; rewrite Epc, E in F; clear - F Lc Le; lia. }
+    assert (Hnor : forall x, x <> t -> restarter (fth s x) = false).
+    { intros x Hx. destruct (restarter (fth s x)) eqn:R; [|reflexivity].
+      assert (Sx : special (fth s x) = false).
+      { destruct (special (fth s x)) eqn:Sx; [|reflexivity]. exfalso. pose proof Sx as Sx'. apply special_holds in Sx.
+        apply (f_hold _ _ _ HC x) in Sx. unfold vctr in Hv. rewrite Sx, Sx' in Hv. clear - Hv. lia. }
+      pose proof (f_r2 _ _ _ HC x R Sx) as T0. clear - T0 Heqb. lia. }
+    eapply (fcore_step_upd U nown s _ t _ HC ND Ht); try (cbn; reflexivity); try assumption.
+    1: attr1 Epc.
+    1: (unfold special; now rewrite Epc).
+    1: (intros _; left; unfold eack; cbn; clear - Lc Le; lia).
+    1: (cbn; rewrite !needs_eq; unfold isoff2, memb, eack; cbn; rewrite Epc; cbn;
+        destruct (acked (tag (fth s t)) =? 0) eqn:Z1; [n2p; contradiction|]; cbn;
+        destruct (acked (tag (fth s t)) + 1 =? ctr (fd s)) eqn:Z2; [|n2p; clear - Z2 Lc Le; lia];
+        destruct (acked (tag (fth s t)) + 1 + 1 =? ctr (fd s)) eqn:Z3; [n2p; clear - Z3 Lc Le; lia|rewrite Heqb; reflexivity]).
+    1: (cbn; unfold memb; cbn; rewrite Epc; reflexivity).
+    1: (split; cbn; auto).
+    1: others_frame U nown HC.
+    1: (cbn; congruence).
+    1: (intros _; now right).
+    all: try (intros E; clear - E Heqb; lia). }
+  1: { (* PQ2 -> return: acked, not the last one *)
+    get_local U nown HC t Epc. destruct L as (L0 & La & Ld & Lc & Le). n2p.
+    assert (Hm1 : memb (fth s t) = true).
+    { unfold memb. rewrite Epc. destruct (acked (tag (fth s t)) =? 0) eqn:Z; [n2p; contradiction|reflexivity]. }
+    assert (Hv : vctr s = ctr (fd s)).
+    { destruct (vctr_cases U nown s HC) as [[E _]|[E _]]; [assumption|exfalso].
+      destruct (f_j1 _ _ _ HC t Hm1) as [F|F]; unfold eack in F; rewrite Epc, E in F; clear - F Lc Le; lia. }
+    assert (Hnd : needs (vctr s) (fth s t) = true).
+    { rewrite needs_eq, Hm1, Hv. unfold eack. rewrite Epc. cbn.
+      destruct (acked (tag (fth s t)) + 1 =? ctr (fd s)) eqn:Z2; [apply orb_true_r|n2p; clear - Z2 Lc Le; lia]. }
+    pose proof (toack_pos U nown s t HC Hnd) as Htp. rewrite (dec32_pos _ Htp). rewrite Hv in Hnd.
+    assert (Hz : (acked (tag (fth s t)) + 1 =? 0) = false) by (apply N.eqb_neq; clear; lia).
+    assert (Hz2 : (acked (tag (fth s t)) + 1 + 1 =? ctr (fd s)) = false) by (apply N.eqb_neq; clear - Lc Le; lia).
+    unfold ret_th; cbn [tret with_ag]; destruct (tret (fth s t)) eqn:Hr.
+    all: eapply (fcore_step_upd U nown s _ t _ HC ND Ht); try (cbn; reflexivity); try assumption.
+    all: try (unfold holds, special; cbn; rewrite ?Epc; reflexivity).
+    all: try (intros _; left; unfold eack; cbn; clear - Lc Le; lia).
+    all: try (rewrite Hnd, needs_eq; unfold isoff2, memb, eack; cbn; rewrite Hz, Hz2; cbn; clear - Htp; lia).
+    all: try (cbn; rewrite Hm1; unfold memb; cbn; rewrite Hz; reflexivity).
+    all: try (split; cbn; auto; fail).
+    all: try (others_frame U nown HC).
+    all: try (cbn; congruence).
+    all: try (unfold restarter; cbn; rewrite Ld; discriminate).
+    all: try (intros E; clear - E Htp; lia). }
+  1: { (* PQ3 -> return: the period is deferred *)
+    get_local U nown HC t Epc. destruct L as (L0 & La & Ld & Lc & Le).
+    assert (Hz : (acked (tag (fth s t)) + 1 =? 0) = false) by (apply N.eqb_neq; clear; lia).
+    assert (Hz0 : (acked (tag (fth s t)) =? 0) = false) by (now apply N.eqb_neq).
+    assert (Hnh : holds (fth s t) = false) by (unfold holds; now rewrite Epc).
+    unfold ret_th; cbn [tret with_ag]; destruct (tret (fth s t)) eqn:Hr.
+    all: eapply (fcore_move2 U nown s _ t _ HC ND Ht); try (cbn; reflexivity).
+    all: try (intros; left; reflexivity).
+    all: try (intros; unfold memb, eack, special, restarter, isoff2; cbn; rewrite ?Epc, ?Hz, ?Hz0, ?Ld; cbn; reflexivity).
+    all: try (eapply (hold_same U nown s _ t _ HC); [cbn; reflexivity|cbn; reflexivity|unfold holds; cbn; now rewrite Epc]).
+    all: try (split; cbn; auto; fail).
+    all: try (intros _; cbn; unfold memb; cbn; rewrite Hz; split; [reflexivity|clear - Lc Le; lia]).
+    all: unfold vctr; cbn; destruct (fmx s) as [h|] eqn:Hm; [|reflexivity];
+      destruct (Nat.eq_dec h t) as [->|Hx]; [apply (f_hold _ _ _ HC t) in Hm; congruence|now rewrite upd_other]. }
+  1: { (* PQ5 -> PQ6 *)
+    vbump_tac U nown HC ND Ht t Epc. reflexivity. }
+  1: { (* PQ6 -> PQ7 *)
+    get_local U nown HC t Epc. destruct L as (L0 & La & Ld & Lc & Le).
+    store_ctr_tac U nown HC ND Ht t Epc.
+    - unfold restarter. cbn. now rewrite Ld.
+    - exact Ld.
+    - now rewrite Lc.
+    - split; cbn; auto. }
+  1: { (* PQ7 -> return: unlock, acked++ *)
+    holder_is_t. get_local U nown HC t Epc. destruct L as (L0 & La & Ld).
+    assert (Hz : (acked (tag (fth s t)) + 1 =? 0) = false) by (apply N.eqb_neq; clear; lia).
+    assert (Hz0 : (acked (tag (fth s t)) =? 0) = false) by (now apply N.eqb_neq).
+    unfold ret_th; cbn [tret with_ag]; destruct (tret (fth s t)) eqn:Hr.
+    all: eapply (fcore_move2 U nown s _ t _ HC ND Ht); try (cbn; reflexivity).
+    all: try (intros; left; reflexivity).
+    all: try (intros; unfold memb, eack, special, restarter, isoff2; cbn; rewrite ?Epc, ?Hz, ?Hz0, ?Ld; cbn; reflexivity).
+    all: try (eapply (hold_unlock U nown s _ t _ HC); [cbn; reflexivity|exact Heqo|cbn; reflexivity|unfold holds; cbn; reflexivity]).
+    all: try (split; cbn; auto; fail).
+    all: try (cbn; congruence).
+    all: unfold vctr; cbn; rewrite Heqo; unfold special; now rewrite Epc. }
+  1: { (* PAb1 -> PAb2: the waiting set is formed *)
+    get_local U nown HC t Epc. destruct L as (L0 & Ln).
+    eapply (fcore_move U nown s _ t _ HC ND Ht); try (cbn; reflexivity).
+    - intros m. cbn. destruct (Nat.eq_dec m n) as [->|Hm]; [now right|left; now apply upd_other].
+    - attrs_tac Epc.
+    - split; cbn; auto. split; [assumption|]. rewrite upd_same. split; [reflexivity|]. clear. lia. }
+  1: { (* PRun2: one callback *)
+    eapply (fcore_move U nown s _ t _ HC ND Ht); try (cbn; reflexivity).
+    - intros; left; reflexivity.
+    - get_local U nown HC t Epc. unfold local_ok. cbn. rewrite Epc. cbn. exact L. }
+Qed.
+
+End Step.
+
+Section StepGhost.
+Variable U : list tid.
+Variable nown : nid -> tid.
+
+(* obligations about t being in a waiting set: it is not (quiescent program counter / offline), or nothing changes *)
+Ltac in_wait_tac nown HG t Epc :=
+  let n := fresh "n" in let Hw := fresh "Hw" in let A := fresh "A" in let Q := fresh "Q" in
+  intros n Hw; cbn in Hw; rewrite ?Nat.eqb_refl in Hw; first [discriminate Hw|idtac];
+  destruct (f_k nown _ HG n t Hw) as (A & Q & _);
+  rewrite ?Epc in Q; cbn in Q; first [ discriminate Q | split; split_ret; cbn; reflexivity ].
+
+Ltac in_qbw_tac nown HG t Epc :=
+  let n := fresh "b" in let tg := fresh "tg" in let Hw := fresh "Hw" in let Hb := fresh "Hb" in
+  let A := fresh "A" in let Q := fresh "Q" in
+  intros n tg Hw Hb; cbn in Hw; rewrite ?Nat.eqb_refl in Hw; first [discriminate Hw|idtac];
+  destruct (f_kq nown _ HG n t tg Hw Hb) as (A & Q & _);
+  rewrite ?Epc in Q; cbn in Q; first [ discriminate Q | split; split_ret; cbn; reflexivity ].
+
+(* the tail of await_barrier: the node is queued *)
+Lemma ghost_ab_finish s t n tg d mx :
+  FGhost nown s -> in_await (fth s t) n = true -> in_quiescent (tpc (fth s t)) = false ->
+  nown n = t -> tg = fwtg s n -> tg <> 0 -> tret (fth s t) = None -> ftarget s n = 0 ->
+  FGhost nown
+    (mkF d mx
+       (upd (fth s) t (ret_th (with_ag (fth s t)
+          (mkAgent (acked (tag (fth s t))) (deferred (tag (fth s t))) (pending (tag (fth s t)) ++ [n])))))
+       (upd (ftarget s) n tg) (fstop s) (fwait s) (fwtg s) (fqbw s) (upd (fowner s) n (Some t))).
+Proof.
+  intros HG Haw Hq Hn Htg Htg0 Hr H0.
+  unfold ret_th. cbn [tret with_ag]. rewrite Hr.
+  set (th' := mkT PIdle _ None _).
+  assert (Hacc : forall x, acked (tag (upd (fth s) t th' x)) = acked (tag (fth s x))).
+  { intros x. unfold upd. destruct (Nat.eqb x t) eqn:E; [apply Nat.eqb_eq in E; subst x|]; reflexivity. }
+  assert (Hpc : forall x, in_quiescent (tpc (fth s x)) = false -> in_quiescent (tpc (upd (fth s) t th' x)) = false).
+  { intros x. unfold upd. destruct (Nat.eqb x t) eqn:E; [reflexivity|auto]. }
+  assert (Hnot : forall x, ~ In n (pending (tag (fth s x)))).
+  { intros x Hin. destruct (f_p1 nown _ HG x n Hin). contradiction. }
+  constructor; cbn.
+  - intros m x Hw. rewrite Hacc. destruct (f_k nown _ HG m x Hw) as (A1 & A2 & A3). auto.
+  - intros b x tg0 Hw Hb. rewrite Hacc.
+    assert (Hb' : qb_target (fth s b) = Some tg0).
+    { revert Hb. unfold upd. destruct (Nat.eqb b t) eqn:E; [|auto]. unfold qb_target, th'. cbn. discriminate. }
+    destruct (f_kq nown _ HG b x tg0 Hw Hb') as (A1 & A2 & A3). auto.
+  - intros m. destruct (Nat.eq_dec m n) as [->|Hm].
+    + intros _. exists t. rewrite !upd_same. split; [reflexivity|]. split; [cbn; apply in_or_app; right; now left|].
+      left. now symmetry.
+    + rewrite !(upd_other _ n _ m Hm). intros Hmz. destruct (f_m nown _ HG m Hmz) as (o & Ho & Hin & Hor).
+      exists o. split; [assumption|]. unfold upd at 1 2. destruct (Nat.eqb o t) eqn:E.
+      * apply Nat.eqb_eq in E. subst o. split; [cbn; apply in_or_app; now left|].
+        destruct Hor as [F|F]; [now left|]. exfalso. unfold in_await in *.
+        destruct (tpc (fth s t)); try discriminate; apply Nat.eqb_eq in Haw, F; congruence.
+      * split; [assumption|]. destruct Hor as [F|F]; [now left|right; assumption].
+  - intros x m Hin. unfold upd in Hin. destruct (Nat.eqb x t) eqn:E.
+    + apply Nat.eqb_eq in E. subst x. cbn in Hin. apply in_app_or in Hin. destruct Hin as [Hin|[<-|[]]].
+      * assert (m <> n) by (intros ->; apply (Hnot t Hin)). rewrite !upd_other by assumption. apply (f_p1 nown _ HG t m Hin).
+      * rewrite !upd_same. split; [assumption|reflexivity].
+    + assert (m <> n) by (intros ->; apply (Hnot x Hin)). rewrite !upd_other by assumption.
+      apply Nat.eqb_neq in E. destruct (f_p1 nown _ HG x m Hin). split; assumption.
+  - intros x. unfold upd. destruct (Nat.eqb x t) eqn:E; [|apply (f_p3 nown _ HG x)].
+    cbn. apply NoDup_snoc; [apply (f_p3 nown _ HG t)|apply Hnot].
+  - intros m x. unfold upd. destruct (Nat.eqb m n) eqn:E.
+    + apply Nat.eqb_eq in E. subst m. intros F. inversion F. congruence.
+    + apply (f_own nown _ HG).
+  - intros x m. unfold upd. destruct (Nat.eqb x t) eqn:E; [apply Nat.eqb_eq in E; subst x|]; apply (f_scr nown _ HG).
+Qed.
+
+Ltac ghost_move nown HG t Epc :=
+  eapply (fghost_frame nown _ _ t _ HG);
+  [ cbn; reflexivity | cbn; reflexivity | cbn; reflexivity | cbn; reflexivity
+  | cbn; intros ? ? ?; repeat match goal with H : (if ?b then _ else _) = true |- _ => destruct b; [discriminate|] end; assumption
+  | cbn; intros ? ? ?; repeat match goal with H : (if ?b then _ else _) = true |- _ => destruct b; [discriminate|] end; assumption
+  | split_ret; cbn; reflexivity
+  | in_wait_tac nown HG t Epc | in_qbw_tac nown HG t Epc
+  | unfold qb_target; split_ret; cbn; rewrite ?Epc; cbn; first [left; reflexivity | right; reflexivity | right; assumption | auto]
+  | intros ?; unfold in_await; rewrite Epc; cbn; try discriminate; auto
+  | let HH := fresh "HH" in split_ret; cbn; intros ? HH;
+    first [exact HH | match goal with E : tscript _ = _ :: _ |- _ => rewrite E; right; exact HH end] ].
+
+Lemma fstep_ghost t s s' evs op :
+  FCore U nown s -> FGhost nown s -> fstop s = None ->
+  fstep t s = (s', evs, op) -> fstop s' = None -> FGhost nown s'.
+Proof.
+  intros HC HG Hstop H Hns.
+  fstep_inv H Hstop.
+  all: try (cbn in Hns; discriminate).
+  all: try assumption.
+  all: clear Hns.
+  all: try solve [ghost_move nown HG t Epc].
+  1: { (* POn5 -> idle: acked := c; an offline agent is in no waiting set *)
+    pose proof (f_loc _ _ _ HC t) as [L0 L]. rewrite Epc in L0, L. destruct L as (La & _).
+    assert (Hr : tret (fth s t) = None) by (apply L0; reflexivity).
+    unfold ret_th. cbn [tret with_ag]. rewrite Hr.
+    eapply (fghost_frame nown _ _ t _ HG); try (cbn; reflexivity).
+    - cbn. auto.
+    - cbn. auto.
+    - intros m Hw. cbn in Hw. destruct (f_k nown _ HG m t Hw) as (A & _). contradiction.
+    - intros b tg Hw Hb. cbn in Hw. destruct (f_kq nown _ HG b t tg Hw Hb) as (A & _). contradiction.
+    - left. reflexivity.
+    - intros m. unfold in_await. rewrite Epc. discriminate.
+    - cbn; auto. }
+  1: { (* PAb1 -> PAb2: the waiting set is formed *)
+    pose proof (f_loc _ _ _ HC t) as [L0 L]. rewrite Epc in L.
+    assert (Hoth : forall x, acked (tag (upd (fth s) t (with_pc (fth s t) (PAb2 n (ctr (fd s) + 2))) x)) = acked (tag (fth s x)) /\
+                             pending (tag (upd (fth s) t (with_pc (fth s t) (PAb2 n (ctr (fd s) + 2))) x)) = pending (tag (fth s x))).
+    { intros x. unfold upd. destruct (Nat.eqb x t) eqn:E; [apply Nat.eqb_eq in E; subst x|]; auto. }
+    constructor; cbn.
+    - intros m x. destruct (Hoth x) as [-> _]. destruct (Nat.eq_dec m n) as [->|Hm].
+      + rewrite !upd_same. intros A. destruct (active_acked_le U nown s x HC A) as (A1 & A2 & A3).
+        split; [assumption|]. split; [|clear - A3; lia].
+        unfold upd. destruct (Nat.eqb x t) eqn:E; [reflexivity|assumption].
+      + rewrite !(upd_other _ n _ m Hm). intros Hw. destruct (f_k nown _ HG m x Hw) as (A1 & A2 & A3).
+        split; [assumption|]. split; [|assumption].
+        unfold upd. destruct (Nat.eqb x t) eqn:E; [reflexivity|assumption].
+    - intros b x tg Hw Hb. destruct (Hoth x) as [-> _].
+      assert (Hb' : qb_target (fth s b) = Some tg).
+      { revert Hb. unfold upd. destruct (Nat.eqb b t) eqn:E; [|auto]. apply Nat.eqb_eq in E. subst b.
+        unfold qb_target. cbn. rewrite Epc. auto. }
+      destruct (f_kq nown _ HG b x tg Hw Hb') as (A1 & A2 & A3). split; [assumption|]. split; [|assumption].
+      unfold upd. destruct (Nat.eqb x t) eqn:E; [reflexivity|assumption].
+    - intros m Hm. destruct (f_m nown _ HG m Hm) as (o & Ho & Hin & Hor). exists o. split; [assumption|].
+      destruct (Hoth o) as [_ ->]. split; [assumption|].
+      destruct (Nat.eq_dec m n) as [->|Hmn].
+      + right. assert (o = t) by (rewrite <- (f_own nown _ HG n o Ho); exact (proj1 (conj L I))). subst o.
+        rewrite upd_same. unfold in_await. cbn. apply Nat.eqb_refl.
+      + rewrite (upd_other _ n _ m Hmn). destruct Hor as [E|E]; [now left|right].
+        unfold upd. destruct (Nat.eqb o t) eqn:Eo; [|assumption]. apply Nat.eqb_eq in Eo. subst o.
+        unfold in_await in E. rewrite Epc in E. discriminate.
+    - intros x m. destruct (Hoth x) as [_ ->]. apply (f_p1 nown _ HG x m).
+    - intros x. destruct (Hoth x) as [_ ->]. apply (f_p3 nown _ HG x).
+    - apply (f_own nown _ HG).
+    - intros x m. unfold upd. destruct (Nat.eqb x t) eqn:E; [apply Nat.eqb_eq in E; subst x|]; apply (f_scr nown _ HG). }
+  1-3: (pose proof (f_loc _ _ _ HC t) as [L0 L]; rewrite Epc in L0, L; destruct L as (Ln & Lt & Lz); n2p;
+        apply (ghost_ab_finish s t _ _ _ _ HG);
+        [ unfold in_await; rewrite Epc; apply Nat.eqb_refl | rewrite Epc; reflexivity | assumption | assumption
+        | assumption | apply L0; reflexivity | assumption ]).
+  1: { (* PRun2: the head of the pending list is called back *)
+    assert (NDp : NoDup (n :: l)) by (rewrite <- Heql; apply (f_p3 nown _ HG t)).
+    inversion NDp as [|? ? Hnl NDl]; subst.
+    assert (Hnt : In n (pending (tag (fth s t)))) by (rewrite Heql; now left).
+    destruct (f_p1 nown _ HG t n Hnt) as [Hnz Hown].
+    set (th' := with_ag (fth s t) _).
+    assert (Hacc : forall x, acked (tag (upd (fth s) t th' x)) = acked (tag (fth s x)) /\ tpc (upd (fth s) t th' x) = tpc (fth s x)
+                           /\ tscript (upd (fth s) t th' x) = tscript (fth s x) /\ qb_target (upd (fth s) t th' x) = qb_target (fth s x)
+                           /\ (forall m, in_await (upd (fth s) t th' x) m = in_await (fth s x) m)).
+    { intros x. unfold upd. destruct (Nat.eqb x t) eqn:E; [apply Nat.eqb_eq in E; subst x|]; repeat split; reflexivity. }
+    constructor; cbn.
+    - intros m x Hw. destruct (Hacc x) as (-> & -> & _). apply (f_k nown _ HG m x Hw).
+    - intros b x tg Hw Hb. destruct (Hacc x) as (-> & -> & _). destruct (Hacc b) as (_ & _ & _ & Eb & _). rewrite Eb in Hb.
+      apply (f_kq nown _ HG b x tg Hw Hb).
+    - intros m. destruct (Nat.eq_dec m n) as [->|Hm]; [rewrite upd_same; congruence|].
+      rewrite (upd_other _ n _ m Hm). intros Hmz. destruct (f_m nown _ HG m Hmz) as (o & Ho & Hin & Hor).
+      exists o. split; [assumption|]. destruct (Hacc o) as (_ & _ & _ & _ & Ea). rewrite Ea. split; [|assumption].
+      unfold upd. destruct (Nat.eqb o t) eqn:E; [|assumption]. apply Nat.eqb_eq in E. subst o.
+      cbn. rewrite Heql in Hin. destruct Hin as [->|Hin]; [congruence|assumption].
+    - intros x m Hin. unfold upd in Hin. destruct (Nat.eqb x t) eqn:E.
+      + apply Nat.eqb_eq in E. subst x. cbn in Hin.
+        assert (m <> n) by (intros ->; contradiction). rewrite (upd_other _ n _ m H).
+        apply (f_p1 nown _ HG t m). rewrite Heql. now right.
+      + apply Nat.eqb_neq in E. destruct (f_p1 nown _ HG x m Hin) as [A B].
+        assert (m <> n) by (intros ->; congruence). rewrite (upd_other _ n _ m H). auto.
+    - intros x. unfold upd. destruct (Nat.eqb x t); [cbn; assumption|apply (f_p3 nown _ HG x)].
+    - apply (f_own nown _ HG).
+    - intros x m. destruct (Hacc x) as (_ & _ & -> & _). apply (f_scr nown _ HG x m). }
+  1: { (* PQb1 -> PQb2: the barrier's waiting set is formed *)
+    set (th' := with_pc (fth s t) _).
+    assert (Hacc : forall x, acked (tag (upd (fth s) t th' x)) = acked (tag (fth s x)) /\
+                             (in_quiescent (tpc (fth s x)) = false -> in_quiescent (tpc (upd (fth s) t th' x)) = false)
+                           /\ tscript (upd (fth s) t th' x) = tscript (fth s x) /\ pending (tag (upd (fth s) t th' x)) = pending (tag (fth s x))
+                           /\ (forall m, in_await (upd (fth s) t th' x) m = in_await (fth s x) m)).
+    { intros x. unfold upd. destruct (Nat.eqb x t) eqn:E; [apply Nat.eqb_eq in E; subst x|]; repeat split; auto.
+      intros m. unfold in_await, th'. cbn. now rewrite Epc. }
+    constructor; cbn [fwait fwtg fqbw fth ftarget fowner fstop fd fmx].
+    - intros m x Hw. destruct (Hacc x) as (-> & Hq & _). destruct (f_k nown _ HG m x Hw) as (A1 & A2 & A3). auto.
+    - intros b x tg Hw Hb. destruct (Hacc x) as (-> & Hq & _). destruct (Nat.eq_dec b t) as [Ebt|Hbt].
+      + subst b. rewrite upd_same in Hw. rewrite upd_same in Hb. unfold qb_target, th' in Hb. cbn in Hb. inversion Hb; subst tg.
+        destruct (active_acked_le U nown s x HC Hw) as (A1 & A2 & A3). split; [assumption|]. split; [auto|]. clear - A3. lia.
+      + rewrite (upd_other _ t _ b Hbt) in Hw. rewrite (upd_other _ t _ b Hbt) in Hb. destruct (f_kq nown _ HG b x tg Hw Hb) as (A1 & A2 & A3). auto.
+    - intros m Hmz. destruct (f_m nown _ HG m Hmz) as (o & Ho & Hin & Hor). exists o.
+      destruct (Hacc o) as (_ & _ & _ & -> & Ea). rewrite Ea. auto.
+    - intros x m. destruct (Hacc x) as (_ & _ & _ & -> & _). apply (f_p1 nown _ HG x m).
+    - intros x. destruct (Hacc x) as (_ & _ & _ & -> & _). apply (f_p3 nown _ HG x).
+    - apply (f_own nown _ HG).
+    - intros x m. destruct (Hacc x) as (_ & _ & -> & _). apply (f_scr nown _ HG x m). }
+  1: { (* PQb4 -> idle: quiescent_barrier returns *)
+    pose proof (f_loc _ _ _ HC t) as [L0 _]. rewrite Epc in L0.
+    eapply (fghost_frame nown _ _ t _ HG); try (cbn; reflexivity).
+    - cbn. auto.
+    - cbn. auto.
+    - in_wait_tac nown HG t Epc.
+    - in_qbw_tac nown HG t Epc.
+    - left. unfold qb_target. cbn. apply L0. reflexivity.
+    - intros m. unfold in_await. rewrite Epc. discriminate.
+    - cbn. auto. }
+Qed.
+
+End StepGhost.
+
+(* ---------------------------------------------------------------------------------------- *)
+(* reachable states of the fine-grained model                                                 *)
+(* ---------------------------------------------------------------------------------------- *)
+
+Section Reach.
+Variable U : list tid.
+Variable nown : nid -> tid.
+Hypothesis ND : NoDup U.
+Hypothesis HB : few U.
+
+(* scripts: threads outside U do nothing; every node is passed to await_barrier by one agent only *)
+Definition scripts_ok (scripts : tid -> list call) : Prop :=
+  (forall t, ~ In t U -> scripts t = []) /\
+  (forall t n, In (CAwait n) (scripts t) -> nown n = t).
+
+Lemma cnt_all_false (p : nat -> bool) (l : list nat) : (forall x, p x = false) -> cnt p l = 0.
+Proof. intros H. induction l as [|a l IH]; cbn; [reflexivity|]. now rewrite H, IH. Qed.
+
+Lemma finv_init scripts : scripts_ok scripts -> FCore U nown (f0 scripts) /\ FGhost nown (f0 scripts).
+Proof.
+  intros [S1 S2]. split.
+  - constructor; cbn.
+    + lia.
+    + intros x Hx. unfold thread0. now rewrite (S1 x Hx).
+    + intros x. unfold holds. cbn. split; discriminate.
+    + intros x. unfold local_ok. cbn. auto.
+    + intros x. unfold memb. cbn. discriminate.
+    + intros x. unfold memb. cbn. discriminate.
+    + symmetry. apply cnt_all_false. intros x. unfold needs, memb. cbn. reflexivity.
+    + symmetry. apply cnt_all_false. intros x. unfold memb. cbn. reflexivity.
+    + intros x. cbn. discriminate.
+    + intros x y. unfold restarter. cbn. discriminate.
+    + reflexivity.
+  - constructor; cbn.
+    + intros n x. discriminate.
+    + intros t x tg. discriminate.
+    + intros n H. congruence.
+    + intros t n [].
+    + intros t. constructor.
+    + intros n t. discriminate.
+    + intros t n. apply S2.
+Qed.
+
+(* a thread outside U never moves *)
+Lemma fstep_outside s t : FCore U nown s -> ~ In t U -> fstep t s = (s, [], CkNone).
+Proof.
+  intros HC Ht. unfold fstep, f_step. destruct (fstop s); [reflexivity|].
+  rewrite (f_univ _ _ _ HC t Ht). reflexivity.
+Qed.
+
+Inductive freach (scripts : tid -> list call) : fstate -> list wev -> Prop :=
+| fr_init : freach scripts (f0 scripts) []
+| fr_step s tr t s' evs op :
+    freach scripts s tr -> fstep t s = (s', evs, op) -> freach scripts s' (tr ++ evs).
+
+Lemma fstep_stopped s t : fstop s <> None -> fstep t s = (s, [], CkNone).
+Proof. intros H. unfold fstep, f_step. destruct (fstop s); [reflexivity|congruence]. Qed.
+
+Theorem freach_inv scripts s tr :
+  scripts_ok scripts -> freach scripts s tr -> fstop s = None -> FCore U nown s /\ FGhost nown s.
+Proof.
+  intros Hok H. induction H as [|s tr t s' evs op Hr IH Hs].
+  - intros _. now apply finv_init.
+  - intros Hns. destruct (fstop s) eqn:Hstop.
+    + rewrite fstep_stopped in Hs by congruence. inversion Hs; subst. congruence.
+    + destruct (IH eq_refl) as [HC HG]. destruct (in_dec Nat.eq_dec t U) as [Ht|Ht].
+      * split; [apply (fstep_core U nown ND HB t s s' evs op Ht HC HG Hstop Hs Hns)
+               |apply (fstep_ghost U nown t s s' evs op HC HG Hstop Hs Hns)].
+      * rewrite (fstep_outside s t HC Ht) in Hs. inversion Hs; subst. auto.
+Qed.
+
+End Reach.
